@@ -148,14 +148,15 @@ def bictypes(E, depth, tag='t'):
     return l @ r
 
 
-def biclosed(E, depth):
+def biclosed(E, depth, kinds=None):
     from discopy import biclosed as B, rigid
     hook.enable(True)
     try:
         F = B.biclosed2rigid
-        kind = E.choice('kind', ['FA', 'BA', 'FC', 'BC', 'FX', 'BX', 'Curry',
-                                 'Curry-left', 'composite'])
-        a, b = bictypes(E, depth, 'a'), bictypes(E, depth, 'b')
+        kind = E.choice('kind', kinds or ['FA', 'BA', 'FC', 'BC', 'FX', 'BX',
+                                          'Curry', 'Curry-left', 'composite'])
+        a, b = bictypes(E, depth, 'a'), bictypes(E, min(depth, 1)
+                                                 if depth < 2 else 0, 'b')
         if kind in ('FA', 'BA') and E.choice('empty-arg', [False, True]):
             b = B.Ty()          # application to the empty type
         if kind == 'FA':
@@ -262,7 +263,12 @@ def ccg(E, depth):
 def harnesses(tier):
     q = tier == "quick"
     T = 600 if q else 900
-    return [
+    deep = [] if q else [
+        H("biclosed_deep", biclosed, dict(depth=2, kinds=['FA', 'BA']), FUNCS,
+          covers=['FA', 'BA'], engine="DSE (choices)", bounds="FA and BA "
+          "over type trees of depth <= 2 (nested slashes, composite sides)",
+          timeout_s=T)]
+    return deep + [
         H("pregroup", pregroup, dict(nwords=2, maxlen=2 if q else 3), FUNCS,
           covers=["parsed", "refused", "brute"], engine="DSE (choices)",
           bounds="vocabularies of 2 words with codomains from 8 types over "
@@ -275,17 +281,17 @@ def harnesses(tier):
           bounds="a 6-production grammar with a recursive rule, max_depth %d, "
           "not_twice / remove_duplicates on and off" % (6 if q else 8),
           outside="other grammars; seeds of the real PRNG", timeout_s=T),
-        H("biclosed", biclosed, dict(depth=1 if q else 2), FUNCS,
+        H("biclosed", biclosed, dict(depth=1), FUNCS,
           covers=['FA', 'BA', 'FC', 'BC', 'FX', 'BX', 'Curry', 'Curry-left',
                   'composite'], engine="DSE (choices)",
           bounds="FA, BA, FC, BC, FX, BX, Curry (left/right, n_wires 1 or "
-          "all) over type trees of depth <= %d of <<, >>, @ on 3 atoms"
-          % (1 if q else 2), outside="deeper nesting; depccg itself",
-          timeout_s=T),
-        H("ccg", ccg, dict(depth=2 if q else 3), FUNCS,
+          "all) over type trees of depth <= 1 of <<, >>, @ on 3 atoms (and "
+          "the empty type as argument of FA/BA)",
+          outside="deeper nesting; depccg itself", timeout_s=T),
+        H("ccg", ccg, dict(depth=2), FUNCS,
           covers=["cat2ty", "tree-fa", "tree-ba", "tree-fc", "tree-other"],
           engine="DSE (choices)", bounds="category strings from trees of "
-          "depth <= %d with [feature] modifiers; JSON trees of depth 1 for "
-          "fa / ba / fc / other rules" % (2 if q else 3),
+          "depth <= 2 with [feature] modifiers; JSON trees of depth 1 for "
+          "fa / ba / fc / other rules",
           outside="symbolic strings (regex on symbolic str is inconclusive "
           "with this tool set)", timeout_s=T)]
